@@ -25,6 +25,15 @@ fn main() {
         println!("cargo::rerun-if-changed=gen/g{i}.l");
         let yout = out.join(format!("g{i}.y.rs"));
         let lout = out.join(format!("g{i}.l.rs"));
+        // in_src: the sources are copied below src/ and the builders derive everything else
+        let in_src: Option<String> = s["in_src"].as_str().map(|d| d.to_string());
+        if let Some(d) = &in_src {
+            let dir = here.join("src").join(d);
+            std::fs::create_dir_all(&dir).unwrap();
+            std::fs::copy(&yp, dir.join(format!("g{i}.y"))).unwrap();
+            std::fs::copy(&lp, dir.join(format!("g{i}.l"))).unwrap();
+        }
+        let (in_src_l, in_src_y) = (in_src.clone(), in_src.clone());
         let ymod = format!("g{i}_y");
         let lmod = format!("g{i}_l");
         let yk = match kind.as_str() {
@@ -40,13 +49,12 @@ fn main() {
         macro_rules! build_pair_w {
             ($t:ty) => {
         std::panic::catch_unwind(move || {
-            let mut lb = CTLexerBuilder::<DefaultLexerTypes<$t>>::new_with_lexemet()
-                .lexer_path(&lp)
-                .output_path(&lout)
-                .mod_name(lmod_static)
-                .allow_missing_terms_in_lexer(true)
-                .allow_missing_tokens_in_parser(true)
-                .show_warnings(false);
+            let mut lb = CTLexerBuilder::<DefaultLexerTypes<$t>>::new_with_lexemet();
+            lb = match &in_src_l {
+                Some(d) => lb.lexer_in_src_dir(format!("{d}/g{i}.l")).map_err(|e| e.to_string())?,
+                None => lb.lexer_path(&lp).output_path(&lout).mod_name(lmod_static),
+            };
+            lb = lb.allow_missing_terms_in_lexer(true).allow_missing_tokens_in_parser(true).show_warnings(false);
             match s2["edition"].as_u64() {
                 Some(2015) => lb = lb.rust_edition(lrlex::RustEdition::Rust2015),
                 Some(2018) => lb = lb.rust_edition(lrlex::RustEdition::Rust2018),
@@ -67,10 +75,11 @@ fn main() {
             let (yp3, yout3) = (yp2.clone(), yout2.clone());
             macro_rules! cfg_parser {
                 ($ctp:ident, $yp:expr, $yout:expr, $s:expr) => {{
+                $ctp = match &in_src_y {
+                    Some(d) => $ctp.grammar_in_src_dir(format!("{d}/g{i}.y")).unwrap(),
+                    None => $ctp.grammar_path(&$yp).output_path(&$yout).mod_name(ymod_static),
+                };
                 $ctp = $ctp
-                    .grammar_path(&$yp)
-                    .output_path(&$yout)
-                    .mod_name(ymod_static)
                     .warnings_are_errors(false)
                     .show_warnings(false)
                     .error_on_conflicts(false);
@@ -169,11 +178,12 @@ fn main() {
             let n = t.as_str().unwrap();
             let _ = write!(tconsts, "(\"{n}\", super::{lmod}::N_{} as usize),", n.to_ascii_uppercase());
         }
+        let srcdir = in_src.as_ref().map(|d| format!("{d}/")).unwrap_or_default();
         let _ = write!(
             mods,
             r#"
-include!(concat!(env!("OUT_DIR"), "/g{i}.l.rs"));
-include!(concat!(env!("OUT_DIR"), "/g{i}.y.rs"));
+lrlex::lrlex_mod!("{srcdir}g{i}.l");
+lrpar::lrpar_mod!("{srcdir}g{i}.y");
 pub mod pair_{i} {{
     use lrlex::LexerDef as _;
     pub fn parse(input: &str) -> crate::CtOut {{
